@@ -22,6 +22,17 @@ shims).  Directives:
           //@macro rule=E1 name=<anyhow|format|...> to=<<replacement>>   every `name!(...)`
                                  invocation is replaced (balanced parentheses)
           //@slice loop=<k> | closure=<k> ...   (see DESIGN section 4; used for loop units)
+          //@foridx rule=E18 find=<<for PAT in &EXPR>> [idx=<name>] [nth=k of=n]   payload = invariants;
+                                 `for PAT in &EXPR { B }` over a Vec/slice by reference whose body uses
+                                 `continue` -> index-based `while` (index advanced before B)
+          //@replaceslice rule=SLICE-CALL from=<<tokens>> to_block_end=1 | until=<<tokens>> | through=<<tokens>>
+                                 payload (a call of the slice's wrapper function) replaces exactly the
+                                 statement range a slice unit with the same anchors verifies
+  //@stubof group=<g> unit=<ID>         emit `#[verifier::external_body] <signature + contract of unit ID
+        of contracts/groups/<g>.rs> { unimplemented!() }` (payload lines = extra clauses, logged)
+  //@copyfrom file=<rel path> from=<<line prefix>> until=<<line prefix>> [until_nth=k]
+        copy the hand-written lines (spec fns) of another template, from the first line starting with
+        `from` up to (excluding) the k-th later line starting with `until`; no directives allowed inside
 
 All matching is on token sequences (whitespace and comments ignored).  An anchor that is not found
 (or found a different number of times than requested) raises ExtractError -> the check exits 2
@@ -419,6 +430,21 @@ def apply_ops(unit, fn_text, log):
         elif kind == 'letchain':
             # Rule E8: `if let PAT = E && COND { BODY }` (no else)  =>  `if let PAT = E { if COND { BODY } }`
             spans = rustlex.find_tokens(s, a['find'])
+            if a.get('count') == 'all' and len(spans) > 1:
+                # `count=all`: several identical let-chains; rewrite all but the first here (from the
+                # end, so that earlier spans stay valid), the first one by the code below
+                for st, en in reversed(spans[1:]):
+                    masked = rustlex.mask(s)
+                    k, pd = en, 0
+                    while k < len(masked) and not (masked[k] == '{' and pd == 0):
+                        pd += 1 if masked[k] in '([' else (-1 if masked[k] in ')]' else 0)
+                        k += 1
+                    cb = rustlex.match_close(masked, k)
+                    if re.match(r'\s*else\b', masked[cb + 1:]):
+                        raise ExtractError('%s: letchain with else is not pure sugar' % unit.id)
+                    s = s[:st] + s[st:en].rstrip()[:-2].rstrip() + ' { if ' + s[en:k].strip() + ' ' + s[k:cb + 1] + ' }' + s[cb + 1:]
+                    log.append({'unit': unit.id, 'rule': 'E8', 'what': 'let-chain `%s ..` -> nested if' % ' '.join(a['find'].split())})
+                spans = spans[:1]
             if len(spans) != 1:
                 raise ExtractError('%s: letchain anchor `%s` found %d times' % (unit.id, a['find'], len(spans)))
             st, en = spans[0]
@@ -466,6 +492,82 @@ def apply_ops(unit, fn_text, log):
             s = (s[:st] + 'loop\n' + payload + '{ ' + a.get('pre', '') + '\nmatch ' + expr + ' { ' + pat + ' => '
                  + s[k:cb + 1] + ' _ => { break; } } }' + s[cb + 1:])
             log.append({'unit': unit.id, 'rule': 'E6', 'what': '`while let %s = %s` -> loop { match .. { %s => body, _ => break } }' % (pat, expr, pat)})
+        elif kind == 'forin':
+            # Rule E14 (Rust's own definition of `for`): `for PAT in EXPR { BODY }`  =>
+            #   `let mut VAR = [to(]EXPR[)]; loop <payload: invariant/decreases> { match VAR.next() { Some(PAT) => { BODY } None => { break; } } }`
+            # `find` is the loop head up to (not including) its `{`; PAT, EXPR and BODY are kept verbatim
+            # (`continue`/`break`/`return` inside BODY keep their meaning). `to=<<f>>` wraps EXPR in a shim
+            # call (rule E4: consuming hash-map iteration), `var=<<name>>` names the iterator variable.
+            spans = rustlex.find_tokens(s, a['find'])
+            if len(spans) != 1:
+                raise ExtractError('%s: forin anchor `%s` found %d times' % (unit.id, a['find'], len(spans)))
+            st, en = spans[0]
+            masked = rustlex.mask(s)
+            m_head = re.compile(r'for\b').match(masked, st)
+            if not m_head:
+                raise ExtractError('%s: forin anchor must be `for PAT in EXPR`' % unit.id)
+            k, pd, m_in = m_head.end(), 0, None
+            while k < en:
+                ch = masked[k]
+                if ch in '([':
+                    pd += 1
+                elif ch in ')]':
+                    pd -= 1
+                elif pd == 0:
+                    m_in = re.compile(r'\bin\b').match(masked, k)
+                    if m_in and not (masked[k - 1].isalnum() or masked[k - 1] == '_'):
+                        break
+                    m_in = None
+                k += 1
+            if m_in is None:
+                raise ExtractError('%s: forin: no `in` in the loop head' % unit.id)
+            pat, expr = s[m_head.end():m_in.start()].strip(), s[m_in.end():en].strip()
+            k = en
+            while masked[k].isspace():
+                k += 1
+            if masked[k] != '{':
+                raise ExtractError('%s: forin: expected `{` after the loop head' % unit.id)
+            cb = rustlex.match_close(masked, k)
+            var = a.get('var', 'verif_it')
+            init = (a['to'] + '(' + expr + ')') if 'to' in a else expr
+            s = (s[:st] + 'let mut ' + var + ' = ' + init + ';\nloop\n' + payload + '{ match ' + var + '.next() { Some(' + pat + ') => '
+                 + s[k:cb + 1] + ' None => { break; } } }' + s[cb + 1:])
+            log.append({'unit': unit.id, 'rule': a.get('rule', 'E14'), 'what': '`for %s in %s` -> let mut %s = %s; loop { match %s.next() { Some(%s) => body, None => break } }' % (pat, expr, var, init, var, pat)})
+        elif kind == 'foridx':
+            # Rule E18: `for PAT in &EXPR { BODY }` (shared iteration over a Vec/slice: yields &EXPR[0],
+            # &EXPR[1], .. in order, std doc of `slice::Iter`) whose BODY uses `continue`, which Verus
+            # rejects inside `for`  =>
+            #   `let mut IDX: usize = 0; while IDX < (EXPR).len() <payload> { let PAT = &(EXPR)[IDX]; IDX = IDX + 1; BODY }`
+            # The index is advanced before BODY so that `continue` keeps its meaning. PAT, EXPR, BODY verbatim.
+            spans = rustlex.find_tokens(s, a['find'])
+            nth, want = int(a.get('nth', '0')), int(a.get('of', '1'))
+            if len(spans) != want:
+                raise ExtractError('%s: foridx anchor `%s` found %d times, expected %d' % (unit.id, a['find'], len(spans), want))
+            st, en = spans[nth]
+            masked = rustlex.mask(s)
+            m_head = re.compile(r'for\b').match(masked, st)
+            m_in = re.compile(r'\bin\s*&').search(masked, st, en)
+            if not m_head or not m_in:
+                raise ExtractError('%s: foridx anchor must be `for PAT in &EXPR`' % unit.id)
+            pat, expr = s[m_head.end():m_in.start()].strip(), ' '.join(s[m_in.end():en].split())
+            k = en
+            while masked[k].isspace():
+                k += 1
+            if masked[k] != '{':
+                raise ExtractError('%s: foridx: expected `{` after the loop head' % unit.id)
+            idx = a.get('idx', 'verif_j')
+            s = (s[:st] + 'let mut %s: usize = 0;\nwhile %s < (%s).len()\n%s{\nlet %s = &(%s)[%s];\n%s = %s + 1;'
+                 % (idx, idx, expr, payload, pat, expr, idx, idx, idx) + s[k + 1:])
+            log.append({'unit': unit.id, 'rule': a.get('rule', 'E18'), 'what': '`for %s in &%s` -> index loop `%s` (element %s[%s] bound, index advanced, then the body verbatim)' % (pat, expr, idx, expr, idx)})
+        elif kind == 'replaceslice':
+            # Rule SLICE-CALL: the statement range that a slice unit with the same anchors verifies as a
+            # function of its own is replaced by the payload (a call of that function); everything
+            # outside the range stays verbatim.
+            st, en = slice_region(unit.id, s, a['from'], a.get('to_block_end') == '1', a.get('until'), a.get('through'))
+            s = s[:st] + payload_txt.strip() + '\n' + s[en:]
+            log.append({'unit': unit.id, 'rule': 'SLICE-CALL', 'what': 'statements `%s` .. (%s) replaced by `%s`' % (
+                a['from'], 'to block end' if a.get('to_block_end') == '1' else ('until `%s`' % a['until'] if 'until' in a else 'through `%s`' % a.get('through')),
+                ' '.join(payload_txt.split())[:200])})
         elif kind == 'closure':
             # Closure literal -> same closure with typed parameters, named result and contract
             # (rule E12). The closure *body* is kept verbatim; an expression body gets braces.
@@ -531,6 +633,93 @@ def apply_ops(unit, fn_text, log):
     return s
 
 
+def slice_region(uid, body, from_anchor, to_block_end, until, through):
+    """(start, end) of a statement range inside `body`: from anchor `from_anchor` to the end of the
+    innermost enclosing block / up to anchor `until` / through the block statement starting at anchor
+    `through`. Same computation as for `slice_from` units (kept in step with it: rule SLICE-CALL replaces
+    exactly what rule SLICE verifies)."""
+    sp = rustlex.find_tokens(body, from_anchor)
+    if len(sp) != 1:
+        raise ExtractError('%s: slice start `%s` found %d times' % (uid, from_anchor, len(sp)))
+    st = sp[0][0]
+    mb = rustlex.mask(body)
+    if to_block_end:
+        depth, k = 0, st
+        while k < len(mb):
+            if mb[k] == '{':
+                depth += 1
+            elif mb[k] == '}':
+                if depth == 0:
+                    break
+                depth -= 1
+            k += 1
+        return st, k
+    if until:
+        sp2 = [x for x in rustlex.find_tokens(body, until) if x[0] > st]
+        if len(sp2) < 1:
+            raise ExtractError('%s: slice end `%s` not found' % (uid, until))
+        return st, sp2[0][0]
+    sp2 = [x for x in rustlex.find_tokens(body, through) if x[0] >= st]
+    if len(sp2) < 1:
+        raise ExtractError('%s: slice end `%s` not found' % (uid, through))
+    k, pd = sp2[0][0], 0
+    while k < len(mb):
+        ch = mb[k]
+        if ch in '([':
+            pd += 1
+        elif ch in ')]':
+            pd -= 1
+        elif ch == '{' and pd == 0:
+            break
+        k += 1
+    return st, rustlex.match_close(mb, k) + 1
+
+
+def unit_contract_of(group, uid):
+    """(signature-and-contract text) of unit `uid` of contracts/groups/<group>.rs: the `//@wrapper`
+    payload of a slice unit, or the repo signature (named return) + `//@contract` payload."""
+    path = os.path.join(VERIF, 'contracts', 'groups', group + '.rs')
+    with open(path, encoding='utf-8') as f:
+        ls = f.read().split('\n')
+    k = 0
+    while k < len(ls):
+        t = ls[k].strip()
+        if t.startswith('//@unit ') and parse_kv(t[len('//@unit '):]).get('id') == uid:
+            break
+        k += 1
+    if k == len(ls):
+        raise ExtractError('stubof: unit %s not found in group %s' % (uid, group))
+    ua = parse_kv(ls[k].strip()[len('//@unit '):])
+    parts = {}
+    k += 1
+    while k < len(ls) and ls[k].strip() != '//@end':
+        t = ls[k].strip()
+        if t.startswith('//@'):
+            w = t[3:].split(' ')[0]
+            buf = []
+            k += 1
+            while k < len(ls) and not ls[k].lstrip().startswith('//@'):
+                buf.append(ls[k])
+                k += 1
+            if w in ('wrapper', 'contract', 'sig'):
+                parts[w] = '\n'.join(buf) + '\n'
+            continue
+        k += 1
+    if 'wrapper' in parts:
+        return parts['wrapper'].rstrip('\n') + '\n', [path]
+    src = read_repo(ua['file'])
+    fnspec = ua['fn']
+    impl_header, fname = (fnspec.rpartition('::')[0], fnspec.rpartition('::')[2]) if '::' in fnspec else (None, fnspec)
+    fs, ob, cb = find_fn(src, fname, impl_header)
+    if 'sig' in parts:
+        sig = parts['sig']
+    else:
+        sig = strip_vis_and_attrs(src[fs:ob])
+        if 'ret' in ua:
+            sig = name_return(sig, ua['ret'])
+    return sig.rstrip() + '\n' + parts.get('contract', ''), [path, ua['file']]
+
+
 def name_return(sig, ret):
     """`fn f(..) -> T` => `fn f(..) -> (ret: T)` (Verus needs a name to state postconditions)."""
     masked = rustlex.mask(sig)
@@ -572,6 +761,7 @@ def expand(group_path):
     log = []
     diffs = {}
     units = {}
+    body_lines = {}
     sources = set()
     i = 0
 
@@ -604,6 +794,8 @@ def expand(group_path):
             sources.update(sub['sources'])
             for uid, (a, b, f) in sub['units'].items():
                 units[uid] = (a + base, b + base, f)
+            for uid, bl in sub.get('body_lines', {}).items():
+                body_lines[uid] = bl + base
             i += 1
         elif word == 'item':
             a = parse_kv(rest)
@@ -643,7 +835,7 @@ def expand(group_path):
                     wrapper, i = payload_from(i + 1)
                 elif w2 == 'tail':
                     tail, i = payload_from(i + 1)
-                elif w2 in ('edit', 'macro', 'dropcall', 'chain', 'closure', 'forlines', 'letchain', 'wrap', 'whilelet'):
+                elif w2 in ('edit', 'macro', 'dropcall', 'chain', 'closure', 'forlines', 'letchain', 'wrap', 'whilelet', 'forin', 'foridx', 'replaceslice'):
                     pl, i = payload_from(i + 1)
                     unit.ops.append((w2, parse_kv(r2), pl))
                 else:
@@ -709,6 +901,7 @@ def expand(group_path):
                 first = len(out) + 1
                 emit(gen)
                 units[unit.id] = (first, len(out), a['file'] + '::' + fnspec + ' [slice]')
+                body_lines[unit.id] = first + wrapper.rstrip('\n').count('\n') + 1
                 log.append({'unit': unit.id, 'rule': 'SLICE', 'what': 'statements `%s` .. of fn %s verified as a function of their free variables' % (a['slice_from'], fnspec)})
                 diffs[unit.id] = ''.join(difflib.unified_diff(
                     real.splitlines(True), gen.splitlines(True),
@@ -732,10 +925,37 @@ def expand(group_path):
             first = len(out) + 1
             emit(gen)
             units[unit.id] = (first, len(out), a['file'] + '::' + fnspec)
+            body_lines[unit.id] = first + (sig.rstrip() + '\n' + contract).count('\n')
             # extraction diff: real text vs generated text
             diffs[unit.id] = ''.join(difflib.unified_diff(
                 real.splitlines(True), gen.splitlines(True),
                 'repo:' + a['file'] + '::' + fnspec, 'generated:' + unit.id, n=1))
+        elif word == 'stubof':
+            # Rule SLICE-CALL (callee side): an `external_body` function that carries, textually, the
+            # contract another group proves for the same statements / function of /repo.
+            a = parse_kv(rest)
+            txt, srcs = unit_contract_of(a['group'], a['unit'])
+            extra, i = payload_from(i + 1)
+            emit('#[verifier::external_body]\n' + txt + extra + '{ unimplemented!() }\n')
+            log.append({'unit': 'stub:' + a['unit'], 'rule': 'SLICE-CALL', 'what': 'external_body stub with the contract of unit %s of group %s%s' % (
+                a['unit'], a['group'], (' + %d extra line(s): %s' % (len(extra.strip().split('\n')), ' '.join(extra.split())[:300])) if extra.strip() else '')})
+        elif word == 'copyfrom':
+            a = parse_kv(rest)
+            with open(os.path.join(VERIF, 'contracts', a['file']), encoding='utf-8') as f:
+                cl = f.read().split('\n')
+            k0 = next((k for k, l in enumerate(cl) if l.startswith(a['from'])), None)
+            if k0 is None:
+                raise ExtractError('copyfrom: no line starts with `%s` in %s' % (a['from'], a['file']))
+            hits = [k for k in range(k0 + 1, len(cl)) if cl[k].startswith(a['until'])]
+            nth = int(a.get('until_nth', '1'))
+            if len(hits) < nth:
+                raise ExtractError('copyfrom: no %d-th line starting with `%s` after the start in %s' % (nth, a['until'], a['file']))
+            region = cl[k0:hits[nth - 1]]
+            if any(l.lstrip().startswith('//@') for l in region):
+                raise ExtractError('copyfrom: the copied region of %s contains directives' % a['file'])
+            out.extend(region)
+            log.append({'unit': 'copy:' + a['file'], 'rule': 'COPY', 'what': 'template lines %d..%d (`%s` .. `%s`) copied' % (k0 + 1, hits[nth - 1], a['from'], a['until'])})
+            i += 1
         else:
             raise ExtractError('unknown directive //@' + word)
     text = '\n'.join(out)
@@ -745,7 +965,7 @@ def expand(group_path):
         if m:
             labels[k + 1] = m.group(1)
     return {'text': text, 'labels': labels, 'units': units, 'log': log, 'diffs': diffs,
-            'sources': sorted(sources)}
+            'sources': sorted(sources), 'body_lines': body_lines}
 
 
 if __name__ == '__main__':
